@@ -360,7 +360,8 @@ def check_c08(tier, seed):
                 "rustc reports >= 1 error attributed to the declaration by span; accepted iff member of a clean build. Plus a crate of expression-valued contradictory bounds / "
                 "invalid defaults whose generated unit tests must fail exactly when contradictory (cargo test). A case is one declaration; non-trivial = its observed verdict was "
                 "compared with a MUST_ACCEPT or MUST_REJECT expectation.")
-    groups = [("all", cratebuild.ALL_FEATURES, FULL_DEPS), ("f0", ["std"], "")]
+    # (schemars08 alone: serde / arbitrary items must still be refused)
+    groups = [("all", cratebuild.ALL_FEATURES, FULL_DEPS), ("f0", ["std"], ""), ("schemars08", ["std", "schemars08"], FULL_DEPS)]
     if tier == "thorough":
         # single-feature sets: every feature-gated item must be refused exactly when its own feature is off
         for f in ("serde", "arbitrary", "regex", "new_unchecked"):
